@@ -146,8 +146,8 @@ class Report:
 
 def load_known():
     path = os.path.join(VERIF, 'known_findings.json')
-    if not os.path.exists(path):
-        return []
+    if not os.path.exists(path) or os.environ.get('VERIF_REPLAY_ALL'):
+        return []     # (replay: listed findings are reproduced like any other)
     with open(path) as f:
         return json.load(f).get('findings', [])
 
